@@ -158,6 +158,8 @@ def run(ctx):
         ig = IG(fn, inline=epoch_inline)
         live = ig.live_nodes()
         fe = [n for n in L.call_nodes(ig, name="for_each", live=live)]
+        if ctx.named("C09.R3a", fe, "for_each", r"ConcurrentVector<") is None:
+            continue
         ok = len(fe) == 1
         bound_ok = False
         lam = None
@@ -218,9 +220,13 @@ def run(ctx):
         live = ig.live_nodes()
         ids = list(L.call_nodes(ig, callee_re=r"ThreadId(Impl<.*>)?::current_thread_id$", live=live))
         inner = list(L.call_nodes(ig, callee_re=r"^babylon::Epoch::(lock|unlock)$", live=live))
+        if ctx.named("C09.R1e", ids, "current_thread_id", r"ThreadId") is None:
+            continue
         ok = bool(ids) and bool(inner)
         if fn.name == "lock":
             ens = list(L.call_nodes(ig, callee_re=r"ConcurrentVector<.*>::ensure$", live=live))
+            if ctx.named("C09.R1e", ens, "ensure", r"ConcurrentVector<") is None:
+                continue
             ok = ok and bool(ens) and all(ig.dominated_by(i, ens) for i in inner)
         ctx.ob("C09.R1e", L.short(fn), ok, fn.loc,
                "thread-local region entry must address the slot of ThreadId::current_thread_id<Epoch>() and make it exist first")
@@ -255,6 +261,8 @@ def run(ctx):
             ig = IG(fn, inline=lambda a, b, c: False)
             live = ig.live_nodes()
             unreg = list(L.call_nodes(ig, name="unregister_accessor", live=live))
+            if ctx.named("C09.R5e", unreg, "unregister_accessor", r"Epoch") is None:
+                continue
 
             def nonnull(atom, pol, lab):
                 c = L.effective_cmp(atom, pol)
